@@ -202,6 +202,16 @@ def make_phase(name, beh, ctx):
       CLOCK.hanging.add(threading.current_thread())
       while True:
         time.sleep(0.0005)
+    if r == 'hangswallow':
+      # never returns by itself; when the termination request arrives, its clean-up swallows it and the body returns
+      # normally -- after the timeout has already been decided
+      CLOCK.hanging.add(threading.current_thread())
+      try:
+        while not ctx.over:
+          time.sleep(0.0005)
+      except BaseException:  # pylint: disable=broad-except
+        pass
+      return None
     if r == 'hangdeaf':
       # never returns and ignores the termination request too (stuck in a call that cannot be interrupted): the
       # executor leaves the thread behind alive; it ends when the harness says the run is over
